@@ -34,9 +34,6 @@ func DurationAttr(duration time.Duration) slog.Attr {
 }
 
 func IterationStatsGroup(started, successful, failed, dropped uint64, period time.Duration) slog.Attr {
-	if started == 0 {
-		started = successful + failed + dropped
-	}
 	return slog.Group("iteration_stats",
 		slog.Uint64("started", started),
 		slog.Uint64("successful", successful),
